@@ -421,8 +421,9 @@ PROPS["C18"] = dict(
 )
 
 PROPS["C20"] = dict(
-    modules=["Morlock.Props.C20", "Morlock.Props.C06", "Morlock.Props.C01"],
-    streams=["c20", "flt"],
+    modules=["Morlock.Props.C20", "Morlock.Props.C20Bernstein", "Morlock.Props.C20Sargon", "Morlock.Props.C20Books", "Morlock.Props.Flt",
+             "Morlock.Props.C06", "Morlock.Props.C01"],
+    streams=["c20", "flt", "bernstein", "sargon", "books"],
     level_text="Lean theorems for the parts that are rules, not heuristics: the colour mirror (board flipped, colours swapped) is an involution and commutes with the attack relation, check, "
                "pseudo-legal and legal move generation, making a move, and perft on every position with at most one king per side (attackedBy_mirror, inCheck_mirror, pseudoMoves_mirror, "
                "apply_mirror, isLegal_mirror, legalMoves_mirror, perft_mirror; the one-king hypothesis is shown necessary), lifted to the bitboard generator through C01 "
